@@ -335,15 +335,21 @@ class Ctx:
         bad = self.hygiene(files)
         if bad:
             self.broken.append("hygiene: " + "; ".join(bad[:10]))
-        # Print Assumptions of the property theorems
-        if propfile not in self.coq_failed:
-            thms = [n for _, n in stmt.findall(open(os.path.join(COQ, propfile)).read())]
-            mod = "V." + propfile[:-2].replace("/", ".")
+        # Print Assumptions of the property theorems (Properties/Cxx.v and its per-family parts Cxx_*.v)
+        parts = [propfile] + sorted(f for f in self.coq_files
+                                    if f.startswith(propfile[:-2] + "_") and f.endswith(".v"))
+        for pf in parts:
+            if pf in self.coq_failed:
+                continue
+            thms = [n for _, n in stmt.findall(open(os.path.join(COQ, pf)).read())]
+            if not thms:
+                continue
+            mod = "V." + pf[:-2].replace("/", ".")
             src = "Require Import %s.\n" % mod + "".join(
                 'Print Assumptions %s.\n' % t for t in thms)
-            rc, out = self.coq_run("assumptions", src)
+            rc, out = self.coq_run("assumptions_" + os.path.basename(pf)[:-2], src)
             if rc != 0:
-                self.broken.append("coq: Print Assumptions failed for %s" % propfile)
+                self.broken.append("coq: Print Assumptions failed for %s" % pf)
             chunks = re.split(r"(?=Closed under the global context|Axioms:)", out)
             chunks = [c.strip() for c in chunks if c.strip()]
             for t, c in zip(thms, chunks):
@@ -354,7 +360,7 @@ class Ctx:
                         if a.split(".")[-1] not in {x.split(".")[-1] for x in STDLIB_AXIOMS}:
                             self.broken.append("axiom: %s depends on %s" % (t, a))
             if len(chunks) != len(thms):
-                self.broken.append("coq: Print Assumptions gave %d answers for %d theorems" % (len(chunks), len(thms)))
+                self.broken.append("coq: Print Assumptions gave %d answers for %d theorems in %s" % (len(chunks), len(thms), pf))
         self.proof_files = files
         return total, done
 
